@@ -18,10 +18,12 @@
 (*   Dev_WaitIndexOneBased  the wait strategy is called with `failures` (>= 1) although   *)
 (*                          the strategies index retries from 0                           *)
 (*   Dev_NoHandlersUnvalidated  disable_validation=True leaves the handler tables empty   *)
+(*   Dev_RepingResolvedWaiters  rehydrate_with_ticks also re-runs the step of a waiter  *)
+(*                          that is already answered (fixed in /repo: FALSE is the code)  *)
 (******************************************************************************)
 EXTENDS Integers, Sequences, FiniteSets, TLC
 
-CONSTANTS Cfg, Dev_MatchDoneWaiters, Dev_WaitIndexOneBased, Dev_NoHandlersUnvalidated
+CONSTANTS Cfg, Dev_MatchDoneWaiters, Dev_WaitIndexOneBased, Dev_NoHandlersUnvalidated, Dev_RepingResolvedWaiters
 
 (* Cfg == [ order    : Seq(step name)  -- config order = sorted names (inspect.getmembers)  *)
 (*          steps    : [name -> [accepts: Seq(ty), nw: Nat, role: "step"|"catch_error",     *)
@@ -364,7 +366,8 @@ RehydrateFrom(bs, i) ==
   IF i > Len(StepNames) THEN <<>>
   ELSE LET s == StepNames[i]
            ws == bs.steps[s].waiters
-           need == SelectSeq(ws, LAMBDA w : w.has_reqs /\ w.reqs = <<>>)
+           \* (an answered waiter's step is already queued for its replay: it is not pinged a second time)
+           need == SelectSeq(ws, LAMBDA w : w.has_reqs /\ w.reqs = <<>> /\ (Dev_RepingResolvedWaiters \/ ~w.is_resolved))
        IN [j \in 1..Len(need) |-> [k |-> "add", ty |-> need[j].ev_ty, uid |-> need[j].uid, evk |-> 0, target |-> s,
                                     att |-> -1, first |-> -1, last_exc |-> "none", rc |-> NoRc]]
           \o RehydrateFrom(bs, i + 1)
